@@ -1,7 +1,7 @@
 SPECIFICATION Spec
 CONSTANTS
   Prune = TRUE
-  Dev_h12 = TRUE
+  Dev_h12 = FALSE
   Dev_h13 = TRUE
   Dev_t127 = TRUE
   Dev_mdict = TRUE
